@@ -98,7 +98,17 @@ fn gen_id(rng: &mut Rng) -> Vec<u8> {
 
 fn gen_addr(rng: &mut Rng, v6: bool) -> String {
     let port = match rng.below(6) { 0 => 0, 1 => 65535, 2 => 256, _ => rng.below(65536) };
-    if v6 { format!("v6:{}:{port}", hex(&rng.bytes(16))) } else { format!("v4:{}:{port}", hex(&rng.bytes(4))) }
+    if v6 {
+        // structured IPv6 addresses as well: IPv4-mapped / -compatible, unspecified, loopback, NAT64 —
+        // they are IPv6 contacts and take 18 bytes on the wire (round-3 seed C13)
+        let ip: Vec<u8> = match rng.below(9) {
+            0 => { let mut a = vec![0u8; 10]; a.extend_from_slice(&[0xff, 0xff]); a.extend_from_slice(&rng.bytes(4)); a }
+            1 => { let mut a = vec![0u8; 12]; a.extend_from_slice(&rng.bytes(4)); a }
+            2 => match rng.below(3) { 0 => vec![0u8; 16], 1 => { let mut a = vec![0u8; 16]; a[15] = 1; a } _ => { let mut a = vec![0u8, 0x64, 0xff, 0x9b]; a.extend_from_slice(&[0u8; 8]); a.extend_from_slice(&rng.bytes(4)); a } },
+            _ => rng.bytes(16),
+        };
+        format!("v6:{}:{port}", hex(&ip))
+    } else { format!("v4:{}:{port}", hex(&rng.bytes(4))) }
 }
 
 fn gen_tid(rng: &mut Rng) -> Vec<u8> {
